@@ -67,11 +67,22 @@ class Model:
         return False
 
     # ---------------------------------------------------------------- filtering
+    def _emptied(self, node, v):
+        """a sub-schema that only lists alternatives (allOf/oneOf/anyOf) all of which are excluded at v
+        describes something that does not exist at v"""
+        if not isinstance(node, dict):
+            return False
+        for k in ("allOf", "oneOf", "anyOf"):
+            lst = node.get(k)
+            if isinstance(lst, list) and lst and all(self.excluded(c, v) for c in lst):
+                return True
+        return False
+
     def _filter(self, node, v):
         if isinstance(node, dict):
             out = {}
             for k, c in node.items():
-                if k != "metadata" and self.excluded(c, v):
+                if k != "metadata" and (self.excluded(c, v) or self._emptied(c, v)):
                     continue
                 out[k] = self._filter(c, v)
             return out
